@@ -157,10 +157,12 @@ Proof.
   destruct (act r (fold fb)) as [v| | |e]; cbn [fst snd]; (split; [reflexivity|]); try exact I; try reflexivity.
   - unfold with_parseinfo. cbn [parseinfo with_pinfo]. split; [reflexivity|].
     destruct v as [| | | | | |a| |]; try reflexivity.
+    destruct (ast_has a key_at); [eexists; split; [reflexivity|]; intros; reflexivity|].
     eexists. split; [reflexivity|]. intros k Hk. unfold reserved in Hk. apply orb_false_iff in Hk. destruct Hk as [H1 H2].
     rewrite ast_get_put_other by exact H2. rewrite ast_get_put_other by exact H1. reflexivity.
   - unfold with_parseinfo. cbn [parseinfo with_pinfo]. split; [reflexivity|].
     destruct (fold fb) as [| | | | | |a| |]; try reflexivity.
+    destruct (ast_has a key_at); [eexists; split; [reflexivity|]; intros; reflexivity|].
     eexists. split; [reflexivity|]. intros k Hk. unfold reserved in Hk. apply orb_false_iff in Hk. destruct Hk as [H1 H2].
     rewrite ast_get_put_other by exact H2. rewrite ast_get_put_other by exact H1. reflexivity.
 Qed.
